@@ -243,4 +243,6 @@ def run(repo, tier):
     res.floor('MIRROR', 2)
     res.floor('ATOMIC', 2)
     res.exhaustive_rules = ['L1 over (normalize|unnormalize|other public entries) x lazyproperties of the three profile classes']
+    from .common import run_clone_pairs
+    run_clone_pairs(repo, res, {m for m in repo.modules if m.startswith('photutils.profiles') and '.tests' not in m})
     return res
